@@ -404,7 +404,12 @@ def _sig(case, msg):
         what = f"inputs {case['inputs']} output {case.get('output')} shapes {[tuple(s) for s in case['shapes']]}"
         if "constants" in case:
             what += f" constants {case['constants']}"
-    short = msg.split(":")[0] if msg.startswith("raised") else msg.split(" (")[0].split(": got")[0]
+    if msg.startswith("raised"):
+        short = msg.split(":")[0]
+    elif msg.startswith("shape"):
+        short = "result " + msg.split(" (reference")[0]
+    else:
+        short = msg.split(" (")[0].split(": got")[0][:120]
     return f"C12 {api} {what}{tag}: {short}"
 
 
